@@ -721,8 +721,8 @@ def run(ctx):
             'exact-rational dynamic programming for the longest-run tables (M = 128, 10^4); the M = 8 table is enumerated by TLC')
   ctx.assume('the formula clause is applied where SP 800-22 defines the test: Runs only when the frequency pre-test passes (the code has no '
              'pre-test and divides by zero on constant strings: observation O1), OverlappingTemplateMatching from one block (1032 bits) upwards (O3)')
-  ctx.assume('Spectral, BinaryMatrixRank, Overlapping/NonOverlapping templates, Universal, LinearComplexity: ladder, thresholds, range and '
-             'invariances only (no independent formula transcription yet)')
+  ctx.assume('p-value formulas are auxiliary transcriptions (mpmath / exact rationals / numpy FFT), not TLC results; Spectral admits both '
+             'sides of a magnitude within 1e-9 of the threshold; the 32 x 32 rank constants are embedded to eight digits (relative 2e-5)')
   r = tlc.expect_holds('NistStats', 'MC_Nist.cfg', timeout=3600)
   ctx.note_mc(r, 'NistStats/MC_Nist: AppendBit walk machine vs definitions, reversal / complement lemmas, ladders, M = 8 table; every string <= 12 bits', 'MaxLen=12')
   d3 = tlc.mc('NistStats', 'MC_Nist_D3.cfg')
